@@ -63,6 +63,15 @@ static void *vm_raw(size_t size)
 
 static void *vm_raw_re(size_t size)
 {
+#ifdef VM_CAP_MODE
+	/* functional (non memory-safety) harnesses: ONE typed block of fixed capacity per array, so the
+	 * array pointer's value set stays a single object; realloc is in place (a legal realloc
+	 * behaviour).  Exact-size blocks + moving realloc are used by the memory-safety jobs.
+	 */
+	VASSERT(size <= sizeof(VM_REALLOC_TYPE) * (VM_REALLOC_CAP), "allocator model: request exceeds the fixed capacity (raise VM_REALLOC_CAP)");
+	VASSUME(size <= sizeof(VM_REALLOC_TYPE) * (VM_REALLOC_CAP));
+	return malloc(sizeof(VM_REALLOC_TYPE) * (VM_REALLOC_CAP));
+#endif
 	VM_REALLOC_CLASSES
 	VASSERT(0, "allocator model: unexpected realloc size (add it to VM_REALLOC_CLASSES)");
 	VASSUME(0);
@@ -178,6 +187,13 @@ static void *vm_realloc(void *p, size_t size)
 		vm_free(p);
 		return NULL;
 	}
+#if defined(VM_CAP_MODE) && !defined(VERIF_NATIVE)
+	VASSERT(size <= sizeof(VM_REALLOC_TYPE) * (VM_REALLOC_CAP), "allocator model: request exceeds the fixed capacity (raise VM_REALLOC_CAP)");
+	vm_requests++;
+	if (vm_fail_at && vm_requests == vm_fail_at)
+		return NULL;
+	return p;
+#endif
 #ifdef VM_USE_LEDGER
 	int i = vm_find(p);
 
@@ -207,9 +223,31 @@ static void *vm_realloc(void *p, size_t size)
 	return q;
 }
 
+#ifdef VM_DIRECT
+/* the harness does not link alloc_utils.c: rtrlib's allocation wrappers ARE the model */
+void *lrtr_malloc(size_t size)
+{
+	return vm_malloc(size);
+}
+
+void *lrtr_realloc(void *ptr, size_t size)
+{
+	return vm_realloc(ptr, size);
+}
+
+void lrtr_free(void *ptr)
+{
+	vm_free(ptr);
+}
+
+static void vm_install(void)
+{
+}
+#else
 static void vm_install(void)
 {
 	lrtr_set_alloc_functions(vm_malloc, vm_realloc, vm_free);
 }
+#endif
 
 #endif
